@@ -167,9 +167,13 @@ def auto_detect_theories(exprs):
         # now check whether theory is relevant for any of the nodes
         enabled = False
         for node in nodes.dfs(exprs, max_depth=1):
-            if theory.is_relevant(node):
-                enabled = True
-                break
+            try:
+                if theory.is_relevant(node):
+                    enabled = True
+                    break
+            except IndexError:
+                # ill-formed declaration with too few children
+                logging.debug(f'ignoring "{node}" for detecting {name}')
 
         if not enabled:
             logging.warn(f'automatically disabling {name} mutators. '
